@@ -423,18 +423,77 @@ def field_writes(mod, name, seen=None, depth=0):
     return out
 
 
+def field_writes_escaped(mod, name):
+    """field_writes plus members whose address is handed to a routine that stores through it (std::swap(r, other.r), std::exchange)"""
+    out = dict(field_writes(mod, name))
+    fi = info(mod, name)
+    this = fi.fn.params[0][1] if fi.fn.params else None
+    for b in fi.fn.order:
+        for ins in fi.fn.blocks[b]:
+            c = callee_name(ins)
+            if not c or c not in mod.funcs:
+                continue
+            for ai, a in enumerate(ins.a[1:]):
+                k = field_of_this(fi, a, this) if isinstance(a, tuple) and a and a[0] == 'r' else None
+                if k is None:
+                    continue
+                try:
+                    cf = info(mod, c)
+                except Exception:
+                    continue
+                if ai >= len(cf.fn.params):
+                    continue
+                pn = cf.fn.params[ai][1]
+                stores = any(i2.op == 'store' and i2.a[1] == ('r', pn) for b2 in cf.fn.order for i2 in cf.fn.blocks[b2])
+                if stores or re.match(r'^(void )?std::(swap|exchange|iter_swap)', mod.dem.get(c, '')):
+                    out.setdefault(k, loc(mod, ins, name))
+    return out
+
+
+def rule_assign(rep):
+    """R-ASSIGN: an assignment operator of the transform class replaces the object as a whole: every data member is transferred.
+    A member left behind (the key of the memoised tables while the tables themselves are swapped) leaves an object whose parts
+    belong to two histories."""
+    mod = smod()
+    fields = class_fields(mod)
+    ops = [n for n in mod.find_re(r'^%s::operator=\(' % CLS)]
+    for n in ops:
+        w = field_writes_escaped(mod, n)
+        missing = sorted(nm for k, nm in fields.items() if k not in w)
+        short = mod.dem[n].split('(')[0] + '(' + mod.dem[n].split('(', 1)[1]
+        try:
+            f_, l_ = mod.fn_loc(n)
+            site = '%s:%s' % (front.rel(f_), l_)
+        except Exception:
+            site = 'src/ntt_goldilocks.hpp'
+        if not w:
+            rep.ok('assign:' + short, 'R-ASSIGN', site, 'writes no member (deleted / trivial)')
+        elif missing:
+            rep.refute('assign:' + short, 'R-ASSIGN', site, '%s transfers %d members but not %s: after the assignment the object holds parts of two histories '
+                       '(e.g. the memoised coset tables of one object under the key of another)' % (short.split('(')[0], len(w), missing))
+        else:
+            rep.ok('assign:' + short, 'R-ASSIGN', site, 'every data member is transferred')
+    rep.cov['assignment_operators'] = len(ops)
+
+
 def rule_effect(rep):
     mod = smod()
     fields = class_fields(mod)
     rep.floor('class members resolved', len(fields), 8)
     allowed = {'r', 'r_', 'rSize'}
-    pub = own_methods(mod)
+    pub = [n_ for n_ in own_methods(mod) if not re.match(r'^%s::operator=\(' % CLS, mod.dem[n_])]     # assignment: R-ASSIGN
     rep.floor('R-EFFECT methods', len(pub), 5)
     for n in pub:
         short = mod.dem[n].split('(')[0]
         w = field_writes(mod, n)
         names = {fields.get(k, 'field#%d' % k): site for k, site in w.items()}
         bad = {k: v for k, v in names.items() if k not in allowed}
+        # a member the pinned class does not have (a cache, a scratch buffer kept between calls): whether later calls depend on
+        # it is decided by the reachability closure, whose state covers every member - said here, not refuted
+        newm = {k: v for k, v in bad.items() if k not in PINNED_MEMBERS}
+        for k_ in sorted(newm):
+            rep.note('%s writes the new member `%s` after construction (%s): covered by the state of the reachability closure' % (short, k_, newm[k_]))
+        bad = {k: v for k, v in bad.items() if k in PINNED_MEMBERS}
         tag = 'effect:' + short
         if bad:
             k0 = sorted(bad)[0]
